@@ -33,6 +33,37 @@ import (
 	"verifharness/tlswire"
 )
 
+type sctV1 struct {
+	logID, ext, sig []byte
+	ts              uint64
+	hash, sigAlg    byte
+}
+
+// readSCTv1 reads a v1 SignedCertificateTimestamp from the front of b (RFC 6962 section 3.2).
+func readSCTv1(b []byte) (s sctV1, ok bool) {
+	if len(b) < 1+32+8+2 || b[0] != 0 {
+		return s, false
+	}
+	s.logID = b[1:33]
+	for _, x := range b[33:41] {
+		s.ts = s.ts<<8 | uint64(x)
+	}
+	b = b[41:]
+	n := int(b[0])<<8 | int(b[1])
+	if len(b) < 2+n+4 {
+		return s, false
+	}
+	s.ext = b[2 : 2+n]
+	b = b[2+n:]
+	s.hash, s.sigAlg = b[0], b[1]
+	m := int(b[2])<<8 | int(b[3])
+	if len(b) < 4+m {
+		return s, false
+	}
+	s.sig = b[4 : 4+m]
+	return s, true
+}
+
 type Case struct {
 	Key        string   `json:"key"`     // server key (pool name)
 	Version    uint16   `json:"version"` // MaxVersion of both sides (client MinVersion is TLS 1.0)
@@ -854,6 +885,31 @@ func (v *verifier) serverHello() {
 		if !ok {
 			f("scts", fmt.Sprintf("%d SCTs", len(l.SignedCertificateTimestamps)), fmt.Sprintf("%x (%v)", scts, err))
 		}
+		// the parsed form next to each raw entry must be the RFC 6962 reading of THAT entry
+		// (SignedCertificateTimestamp: version 0, log id, timestamp, extensions<0..2^16-1>,
+		// digitally-signed), and absent when the entry is not one
+		nParsed, nRaw := 0, 0
+		for i, e := range l.SignedCertificateTimestamps {
+			want, wok := readSCTv1(e.Raw)
+			switch {
+			case wok && e.Parsed == nil:
+				f(fmt.Sprintf("scts[%d].parsed", i), nil, fmt.Sprintf("entry %x is a well-formed v1 SCT", e.Raw))
+			case !wok && e.Parsed != nil:
+				f(fmt.Sprintf("scts[%d].parsed", i), fmt.Sprintf("%+v", *e.Parsed), fmt.Sprintf("entry %x is not a v1 SCT", e.Raw))
+			case wok:
+				nParsed++
+				g := e.Parsed
+				if g.SCTVersion != 0 || !bytes.Equal(g.LogID[:], want.logID) || g.Timestamp != want.ts || !bytes.Equal(g.Extensions, want.ext) ||
+					byte(g.Signature.HashAlgorithm) != want.hash || byte(g.Signature.SignatureAlgorithm) != want.sigAlg || !bytes.Equal(g.Signature.Signature, want.sig) {
+					f(fmt.Sprintf("scts[%d].parsed", i), fmt.Sprintf("%+v", *g), fmt.Sprintf("entry %x", e.Raw))
+				}
+			default:
+				nRaw++
+			}
+		}
+		if nParsed > 0 && nRaw > 0 {
+			v.r.Class("server-scts: parseable and unparseable entries mixed")
+		}
 		v.r.Class("server-scts")
 	}
 	if l.AlpnProtocol != "" {
@@ -1420,7 +1476,29 @@ func gen(t *rapid.T) Case {
 		c.OCSP = rapid.SliceOfN(rapid.Byte(), 1, 60).Draw(t, "ocsp-bytes")
 	}
 	if rapid.IntRange(0, 2).Draw(t, "sct") == 0 {
-		c.SCTs = rapid.SliceOfN(rapid.SliceOfN(rapid.Byte(), 1, 50), 1, 3).Draw(t, "scts")
+		// each entry: a well-formed RFC 6962 v1 SCT, a truncated one, or arbitrary bytes (the server
+		// serves whatever it is given; the log must say for each entry what it is)
+		n := rapid.IntRange(1, 4).Draw(t, "nscts")
+		for i := 0; i < n; i++ {
+			switch rapid.IntRange(0, 3).Draw(t, "sct-kind") {
+			case 0:
+				c.SCTs = append(c.SCTs, rapid.SliceOfN(rapid.Byte(), 1, 50).Draw(t, "sct-garbage"))
+			default:
+				b := []byte{0}
+				b = append(b, rapid.SliceOfN(rapid.Byte(), 32, 32).Draw(t, "sct-logid")...)
+				b = append(b, rapid.SliceOfN(rapid.Byte(), 8, 8).Draw(t, "sct-ts")...)
+				ext := rapid.SliceOfN(rapid.Byte(), 0, 5).Draw(t, "sct-ext")
+				b = append(b, byte(len(ext)>>8), byte(len(ext)))
+				b = append(b, ext...)
+				sig := rapid.SliceOfN(rapid.Byte(), 0, 72).Draw(t, "sct-sig")
+				b = append(b, rapid.SampledFrom([]byte{4, 5, 2, 0, 9}).Draw(t, "sct-hash"), rapid.SampledFrom([]byte{3, 1, 0, 7}).Draw(t, "sct-sigalg"), byte(len(sig)>>8), byte(len(sig)))
+				b = append(b, sig...)
+				if rapid.IntRange(0, 4).Draw(t, "sct-trunc") == 0 {
+					b = b[:rapid.IntRange(1, len(b)-1).Draw(t, "sct-cut")]
+				}
+				c.SCTs = append(c.SCTs, b)
+			}
+		}
 	}
 	c.SendCA = rapid.Bool().Draw(t, "send-ca")
 	c.Tickets = rapid.SampledFrom([]string{"on", "on", "on", "none", "server-off"}).Draw(t, "tickets")
